@@ -106,6 +106,7 @@ class Interp(object):
         self.encoded = {}           # qualified name -> dict(file, lines, sha256)
         self.loop_bound = loop_bound
         self.depth_bound = depth_bound
+        self.sym_iter_bound = 3      # characters of a symbolic str that are enumerated when it is iterated
         self.on_bound = "raise"      # or "cut": paths needing more unwinding are cut and counted
         self.cuts = 0
         self.native_calls = None     # set() of qualified names of natively executed callees when enabled
@@ -126,9 +127,9 @@ class Interp(object):
         self.global_overrides.setdefault(id(module.__dict__), {})[name] = value
 
     def should_interpret(self, f):
-        if f in self.native:
+        if self.native and f in self.native:
             return False
-        if f in self.force_interp:
+        if self.force_interp and f in self.force_interp:
             return True
         mod = getattr(f, "__module__", None) or ""
         return any(mod == p or mod.startswith(p + ".") for p in self.interpret_prefixes)
@@ -182,6 +183,9 @@ class Interp(object):
             mm = self.find_model(fn)
             if mm is not None:
                 return mm(self, f.__self__, *args, **kwargs)
+        if isinstance(f, types.FunctionType) and hasattr(f, "dispatch") and hasattr(f, "registry") and args:
+            # functools.singledispatch: the implementation is chosen by the class of the first argument (MRO-aware)
+            return self.call(f.dispatch(V.pytype_of(args[0])), args, kwargs)
         if isinstance(f, types.FunctionType) and self.should_interpret(f):
             return self.call_pyfunc(f, args, kwargs)
         if isinstance(f, type):
@@ -234,6 +238,14 @@ class Interp(object):
         return False
 
     def find_model(self, f):
+        # models are registered for functions / builtins / bound builtin methods only; never hash anything else
+        # (hash(proxy) -- also via a weak reference or a bound method of a proxy -- is a remote call)
+        if not isinstance(f, (types.FunctionType, types.BuiltinFunctionType, types.MethodType, types.MethodWrapperType,
+                              types.MethodDescriptorType, types.WrapperDescriptorType)) and not issubclass(type(f), type):
+            return None
+        owner = f.__self__ if isinstance(f, types.MethodType) else None
+        if owner is not None and not issubclass(type(owner), type) and (type(owner).__module__ or "").startswith("rpyc"):
+            return None
         try:
             m = self.models.get(f)
         except TypeError:
@@ -863,6 +875,9 @@ class Interp(object):
         h = getattr(container, "sym_contains", None)
         if h is not None:
             return h(item)
+        d = self.dunder(container, "__contains__")
+        if d is not None:
+            return self.call(d, (container, item))
         if isinstance(container, SymStr) or (type(container) is str and isinstance(item, SymStr)):
             if V.pytype_of(item) is not str:
                 raise TypeError("'in <string>' requires string as left operand")
@@ -1013,9 +1028,33 @@ class Interp(object):
             return h()
         if isinstance(v, Sym):
             if isinstance(v, SymStr):
-                raise Unsupported("iteration over a symbolic str")
+                return self._iter_symstr(v)
             raise TypeError("%r object is not iterable" % v.pytype.__name__)
         return iter(v)
+
+    def _iter_symstr(self, v):
+        """characters of a symbolic str, unrolled under the loop bound"""
+        i = 0
+        ln = z3.Length(v.e)
+        while ctx().branch(ln > i, "str-iter"):
+            if i >= self.sym_iter_bound:
+                # longer texts are cut (counted): unpacking a peer-chosen text character by character is uniform in its length
+                self.cuts += 1
+                raise PathAbort()
+            yield V.wrap(z3.SubString(v.e, i, 1))
+            i += 1
+
+    def dunder(self, obj, name):
+        """interpreted special method of a concrete instance (classes of the code under test), or None"""
+        if isinstance(obj, (Sym, type)) or type(obj).__module__ in ("builtins",):
+            return None
+        for k in type(obj).__mro__:
+            d = k.__dict__.get(name)
+            if d is not None:
+                if isinstance(d, IFunc) or (isinstance(d, types.FunctionType) and self.should_interpret(d)):
+                    return d
+                return None
+        return None
 
     def getattr(self, obj, name):
         h = getattr(type(obj), "sym_getattr", None)
@@ -1121,6 +1160,9 @@ class Interp(object):
         h = getattr(obj, "sym_getitem", None)
         if h is not None:
             return h(key)
+        d = self.dunder(obj, "__getitem__")
+        if d is not None:
+            return self.call(d, (obj, key))
         if isinstance(obj, Sym):
             if isinstance(obj, SymStr):
                 from . import models as M
@@ -1154,6 +1196,9 @@ class Interp(object):
         h = getattr(obj, "sym_setitem", None)
         if h is not None:
             return h(key, v)
+        d = self.dunder(obj, "__setitem__")
+        if d is not None:
+            return self.call(d, (obj, key, v))
         if isinstance(key, Sym) or (type(key) is tuple and self.has_sym(key)):
             if isinstance(obj, dict):
                 try:
